@@ -182,6 +182,12 @@ class Opaque:
 
 
 @dataclass
+class OptOpaque(Opaque):
+    """an opaque attribute that may be None: truthiness is the uninterpreted `present`"""
+    present: Any = None
+
+
+@dataclass
 class PyConst:
     """a python-level constant namespace/class/function name the interpreter knows how to call."""
     kind: str  # 'class' | 'excclass' | 'module' | 'builtin' | 'modelclass' | 'spec'
@@ -459,6 +465,8 @@ class Interp:
             return v.s.length() > 0  # capitalize/lower/upper keep emptiness
         if isinstance(v, ArrList):
             return v.n > 0
+        if isinstance(v, OptOpaque):
+            return v.present
         if isinstance(v, (PRec, ZRec, Closure, BoundMeth, Opaque, PyConst, FuncVal)):
             if isinstance(v, (PRec, ZRec)) and self.dictview(v) is not None:
                 return self.dictview(v)[0]() != z3.K(z3.StringSort(), z3.BoolVal(False))
@@ -1402,6 +1410,13 @@ class Interp:
             a = a.get()
         if isinstance(b, ZRec):
             b = b.get()
+        def _fv(v):
+            if isinstance(v, BoundMeth) and isinstance(v.recv, Opaque) and isinstance(v.target, PyConst) \
+                    and v.target.kind == 'opaquemethod' and v.target.name in self.w.registry.generic:
+                return FuncVal(v.target.name, v.recv.ident)
+            return v
+
+        a, b = _fv(a), _fv(b)
         if isinstance(a, Opaque) and isinstance(b, Opaque) and a.kind == b.kind:
             return Opaque(a.kind, z3.If(c, a.ident, b.ident))
         if isinstance(a, FuncVal) and isinstance(b, FuncVal) and a.contract == b.contract:
@@ -1453,6 +1468,8 @@ class Interp:
             o = b if a is None else a
             if o is None:
                 return True
+            if isinstance(o, OptOpaque):
+                return self.neg(o.present)
             if z3.is_expr(o) and o.sort() == S.UNIONS.get('Outcome'):
                 return S.UNIONS['Outcome'].is_o_none(o)
             if S.is_val(o):
@@ -2111,6 +2128,10 @@ class Interp:
         if sortname.startswith('opaque:'):
             f = self.w.uf(f'attr_{fname}', z3.IntSort(), z3.IntSort())
             return Opaque(sortname.split(':', 1)[1], f(ident))
+        if sortname.startswith('optopaque:'):
+            f = self.w.uf(f'attr_{fname}', z3.IntSort(), z3.IntSort())
+            h = self.w.uf(f'has_{fname}', z3.IntSort(), z3.BoolSort())
+            return OptOpaque(sortname.split(':', 1)[1], f(ident), h(ident))
         if sortname.startswith('seq[opaque:'):
             f = self.w.uf(f'attr_{fname}', z3.IntSort(), z3.SeqSort(z3.IntSort()))
             return OpaqueSeq(sortname[len('seq[opaque:'):-1], f(ident))
